@@ -328,6 +328,11 @@ func (w *World) runTCaller(ci int) {
 			outstanding = outstanding[:0]
 		case "sleep":
 			simrt.Sleep(time.Duration(op.N) * time.Microsecond)
+		case "fallback":
+			if ts.C != nil {
+				ts.C.Fallback(time.Duration(op.N) * time.Microsecond)
+				w.Probe("fallback")
+			}
 		case "closeidle":
 			t.CloseIdleConnections()
 			w.Probe("close-idle-connections")
@@ -638,6 +643,16 @@ func genC19T(r *simrt.Rand, tier string, idx uint64) *Plan {
 			}
 		}
 		p.Clients = append(p.Clients, cp)
+	}
+	if p.Params["via_client"] == 1 && idx%8 == 1 {
+		// routing paused by Fallback: a CallWithContext issued during the pause still returns at its deadline
+		fb := 500000 + r.Intn(1500000)
+		p.Clients = append(p.Clients, ClientPlan{Ops: []Op{{Kind: "sleep", N: 320000}, {Kind: "fallback", N: fb}}})
+		for c := 0; c < 1+r.Intn(3); c++ {
+			d := 50 + r.Intn(2000)
+			p.Clients = append(p.Clients, ClientPlan{Ops: []Op{{Kind: "sleep", N: 330000 + r.Intn(fb/2)}, {Kind: "ctx", Addr: r.Intn(ns), Size: 5, Rep: 5, CtxBuf: -1, Timeout: d}, {Kind: "ctx", Addr: r.Intn(ns), Size: 5, Rep: 5, CtxBuf: -1, Timeout: -1}}})
+		}
+		p.Params["faulty"] = 1 // (exact answer-time expectations do not apply to calls that wait for the pause)
 	}
 	if faulty {
 		// servers go away (all of them in half of these runs) and come back much later
